@@ -73,7 +73,25 @@ def parseTrace (t : String) : List Int × Nat := Id.run do
     if runLen > maxRun then maxRun := runLen
   return (keys.toList, maxRun)
 
-def parseInts (ws : List String) : Option (List Int) := ws.mapM String.toInt?
+/-- Arguments are decimal integers, or blobs `x01<hex>` (a sentinel byte, then the bytes), which
+    are passed on as the integer value of the whole hex string. -/
+def parseArg (w : String) : Option Int :=
+  if w.startsWith "x" then
+    (w.toList.drop 1).foldlM (fun (acc : Nat) c => (hexVal c).map (fun d => 16 * acc + d)) 0 |>.map Int.ofNat
+  else w.toInt?
+
+def parseInts (ws : List String) : Option (List Int) := ws.mapM parseArg
+
+/-- Bytes of a blob argument (big-endian digits of the integer, sentinel byte dropped). -/
+def blobBytes (x : Int) : ByteArray := Id.run do
+  let mut n := x.toNat
+  let mut out : List UInt8 := []
+  while n > 0 do
+    out := UInt8.ofNat (n % 256) :: out
+    n := n / 256
+  return ⟨(out.drop 1).toArray⟩
+
+def hexBA (b : ByteArray) : String := hexOfBytes b.toList
 
 def handleLine {σ : Type} (sys : Sys σ) (r : Run σ) (lineNo : Nat) (line : String) : IO (Run σ) := do
   if line.startsWith "S " then
@@ -83,6 +101,10 @@ def handleLine {σ : Type} (sys : Sys σ) (r : Run σ) (lineNo : Nat) (line : St
       | some i, some bs =>
         return { r with table := r.table.insert i (hx, sys.decode bs), states := r.states + 1 }
       | _, _ => report r lineNo "parse" line
+    | [_, id] =>
+      match id.toNat? with
+      | some i => return { r with table := r.table.insert i ("", sys.decode []), states := r.states + 1 }
+      | none => report r lineNo "parse" line
     | _ => report r lineNo "parse" line
   else if line.startsWith "O " then
     match line.splitOn " => " with
@@ -111,7 +133,7 @@ def handleLine {σ : Type} (sys : Sys σ) (r : Run σ) (lineNo : Nat) (line : St
           let mut r := r
           for c in sys.cover pre op args do
             r := { r with cover := bump r.cover c }
-          if res'.trimAscii.toString != res.trimAscii.toString then
+          if res' != "?" && res'.trimAscii.toString != res.trimAscii.toString then
             r ← report r lineNo "result" s!"`{op} {args}` on {sys.show_ pre}: implementation {res}, model {res'}" op
           -- trace
           let tr := trace.trimAscii.toString
@@ -290,6 +312,110 @@ def asetSys (f : AFmt) : Sys ASetS where
   cover := asetCover f
   mergeTrace := false
 
+/-! ### Strings and pods: the state is the buffer itself -/
+
+def baSys (step : ByteArray → String → List Int → Option (ByteArray × String)) : Sys ByteArray where
+  decode := fun bs => .ok ⟨bs.toArray⟩
+  encode := fun s => some s.toList
+  step := step
+  trace := fun _ _ _ => none
+  absEq := fun a b => a.toList == b.toList
+  wf := fun _ => []
+  eq := fun a b => a.toList == b.toList
+  show_ := fun s => "x" ++ hexBA s
+  cover := fun _ _ _ => []
+
+def pstrStep (w : Nat) (s : ByteArray) (op : String) (args : List Int) : Option (ByteArray × String) :=
+  let P := 2 ^ (8 * w) - 1
+  match op, args with
+  | "new", [] =>
+    match PStr.new w P s with
+    | .error e => some (s, faultStr e)
+    | .ok (b', r) => some (b', if r then "ok x" ++ hexBA (PStr.payload w b') else "err")
+  | "copy", [blob] =>
+    match PStr.new w P s with
+    | .error e => some (s, faultStr e)
+    | .ok (b', r) =>
+      if r then
+        match String.fromUTF8? (blobBytes blob) with
+        | none => none
+        | some str =>
+          let b'' := PStr.copyFromStr w b' str
+          some (b'', "ok x" ++ hexBA (PStr.payload w b''))
+      else some (b', "err")
+  | "load", [] =>
+    match PStr.fromBytes w s with
+    | .error e => some (s, faultStr e)
+    | .ok (some p) => some (s, "ok x" ++ hexBA p)
+    | .ok none => some (s, "err")
+  | "size", [] =>
+    match PStr.fromBytes w s with
+    | .error e => some (s, faultStr e)
+    | .ok (some _) => some (s, toString (PStr.size w s))
+    | .ok none => some (s, "err")
+  | _, _ => none
+
+def podstrStep (n : Nat) (s : ByteArray) (op : String) (args : List Int) : Option (ByteArray × String) :=
+  match op, args with
+  | "from", [blob] => some (PodStr.ofBytes n (blobBytes blob), "-")
+  | "copy", [blob] => some (PodStr.ofBytes n (blobBytes blob), "-")
+  | "asstr", [] =>
+    match PodStr.asStr s with
+    | some t => some (s, "ok x" ++ hexBA t)
+    | none => some (s, "err")
+  | "disp", [] =>
+    match PodStr.display s with
+    | some t => some (s, "x" ++ hexBA t)
+    | none => some (s, "?")     -- lossy rendering of invalid text is not modelled
+  | "load", [] =>
+    match Pod.load n s with
+    | .ok v => some (s, if v.toList == s.toList then "true" else "false")
+    | .error e => some (s, faultStr e)
+  | _, _ => none
+
+def podIsSome (kind : Nat) (inner : ByteArray) : Bool :=
+  if kind == 8 then inner.toList != List.replicate 8 255 else inner.toList.any (· != 0)
+
+def podStep (kind n : Nat) (s : ByteArray) (op : String) (args : List Int) : Option (ByteArray × String) :=
+  let boolStr := fun (b : Bool) => if b then "true" else "false"
+  match op, args with
+  | "bool", [] =>
+    match Pod.load 1 s with
+    | .ok v => some (s, boolStr (Pod.boolDecode (v.toList.headD 0)))
+    | .error e => some (s, faultStr e)
+  | "view", [] =>
+    match Pod.load n s with
+    | .ok v => some (s, "x" ++ hexBA v)
+    | .error e => some (s, faultStr e)
+  | "setb", [b] =>
+    match Pod.storeMut 1 s ⟨#[Pod.boolEncode (b != 0)]⟩ with
+    | .ok s' => some (s', "-")
+    | .error e => some (s, faultStr e)
+  | "enc", [b] =>
+    let e := Pod.boolEncode (b != 0)
+    some (s, "x" ++ hexOfBytes [e] ++ " " ++ boolStr (Pod.boolDecode e))
+  | "optval", [] =>
+    match Pod.load n s with
+    | .error e => some (s, faultStr e)
+    | .ok v =>
+      match Pod.optValue (podIsSome kind) v with
+      | some x => some (s, "some x" ++ hexBA x)
+      | none => some (s, "none")
+  | "optset", [blob] =>
+    match Pod.load n s with
+    | .error e => some (s, faultStr e)
+    | .ok v =>
+      if (Pod.optValue (podIsSome kind) v).isSome then
+        match Pod.storeMut n s (blobBytes blob) with
+        | .ok s' => some (s', "true")
+        | .error e => some (s, faultStr e)
+      else some (s, "false")
+  | "store", [blob] =>
+    match Pod.storeMut n s (blobBytes blob) with
+    | .ok s' => some (s', "-")
+    | .error e => some (s, faultStr e)
+  | _, _ => none
+
 def main : IO Unit := do
   let h ← IO.getStdin
   let first ← h.getLine
@@ -309,6 +435,15 @@ def main : IO Unit := do
   | "cfg" :: "aset" :: rest =>
     let f : AFmt := { pw := cfgNat rest "pw" 1, vsz := cfgNat rest "vsz" 1, keyBytes := cfgNat rest "kb" 1 }
     let r ← loop (asetSys f) h {} 2
+    summary r
+  | "cfg" :: "pstr" :: rest =>
+    let r ← loop (baSys (pstrStep (cfgNat rest "w" 1))) h {} 2
+    summary r
+  | "cfg" :: "podstr" :: rest =>
+    let r ← loop (baSys (podstrStep (cfgNat rest "n" 4))) h {} 2
+    summary r
+  | "cfg" :: "pod" :: rest =>
+    let r ← loop (baSys (podStep (cfgNat rest "kind" 0) (cfgNat rest "size" 1))) h {} 2
     summary r
   | _ =>
     IO.println s!"M 1 parse unknown cfg line: {first}"
